@@ -263,7 +263,7 @@ Proof.
   pose proof (validated_flatten_ids m Hval Hla Hgc Hnc) as Hnd.
   pose proof (validated_single_def m Hval Hla Hgc) as Hsd.
   assert (Hac : acyclic m) by (apply sound_acyclic; apply Hval).
-  unfold columns. cbn [andb]. rewrite map_map. cbn [fst].
+  unfold columns. rewrite (dict_by_id_nodup _ Hnd). cbn [andb]. rewrite map_map. cbn [fst].
   split; [apply NoDup_map_filter; exact Hnd|]. split.
   - intros c n Hc Hn.
     assert (Hnm : In n (nodes m)).
